@@ -3,6 +3,8 @@ package generator
 import (
 	"context"
 	"fmt"
+	"os"
+	"regexp"
 	"runtime"
 	"strings"
 	"sync"
@@ -628,3 +630,226 @@ func TestVerif_C45_LatchCounts(t *testing.T) {
 		st.Case(maxCnt >= 2, sb.String(), fmt.Sprintf("max-nesting:%d", min(maxCnt, 4)), fmt.Sprintf("unlock-panics:%v", panics > 0))
 	})
 }
+
+// compute() racing with the scheduler check that stops the scheduler: 2..32
+// compute calls and one checkProtocols() are released together (spin barrier)
+// while a registered latch is held. Whatever the interleaving, once all calls
+// returned the check has seen the protocol executing, so every context handed
+// to a worker must be cancelled and no worker may run with a live context -
+// also not one whose compute() overlapped the check - until the latch is
+// released and a later check resumes generation.
+func TestVerif_C45_ComputeRacesCheck(t *testing.T) {
+	st := verifkit.New("C45", "TestVerif_C45_ComputeRacesCheck")
+	defer st.Flush()
+	if c45MeasureHits {
+		// measurement mode (manual runs against a seeded tree): count the rounds
+		// in which a violation is seen instead of stopping at the first one
+		defer func() { fmt.Printf("C45-HITRATE rounds=%d hits=%d\n", c45Rounds.Load(), c45Hits.Load()) }()
+	}
+	rapid.Check(t, func(t *rapid.T) {
+		rounds := rapid.IntRange(4, 12).Draw(t, "rounds")
+		var render []string
+		split, allBefore, allAfter := 0, 0, 0
+		for r := 0; r < rounds; r++ {
+			n := rapid.IntRange(2, 32).Draw(t, "computes")
+			pre := rapid.IntRange(0, 2).Draw(t, "workersBefore")
+			nested := rapid.IntRange(1, 2).Draw(t, "holds")
+			delay := rapid.IntRange(0, 300).Draw(t, "checkDelaySpins")
+			render = append(render, fmt.Sprintf("%d+%dx%d/%d", pre, n, nested, delay))
+			total := pre + n
+
+			s := &Scheduler{}
+			latch := NewProtocolLatch()
+			s.RegisterProtocol(latch)
+			w := &c45World{entries: make([]int, total)}
+			w.phase.Store(c45PhaseWorking)
+			fail := func(format string, a ...any) {
+				if c45MeasureHits {
+					panic(c45Hit{})
+				}
+				t.Logf("round %d: "+format, append([]any{r}, a...)...)
+				t.Fatalf("round of %s: %s", render[len(render)-1], c45Verb.ReplaceAllString(format, "_"))
+			}
+			cleanup := func() {
+				w.phase.Store(c45PhaseTransition)
+				s.stop()
+				verifkit.Eventually(5*time.Second, func() bool {
+					live, running := w.liveActive(total)
+					for _, l := range live {
+						running -= l
+					}
+					return running == 0
+				})
+			}
+			liveNow := func() int {
+				live, _ := w.liveActive(total)
+				sum := 0
+				for _, l := range live {
+					sum += l
+				}
+				return sum
+			}
+			issued := func() int {
+				s.workMutex.Lock()
+				defer s.workMutex.Unlock()
+				return len(s.stops)
+			}
+			c45Rounds.Add(1)
+			func() {
+				defer cleanup()
+				defer func() {
+					if x := recover(); x != nil {
+						if _, ok := x.(c45Hit); !ok {
+							panic(x)
+						}
+						c45Hits.Add(1)
+					}
+				}()
+				for k := 0; k < pre; k++ {
+					s.compute(w.worker(k))
+				}
+				if !verifkit.Eventually(c45WaitTimeout, func() bool { return liveNow() == pre }) {
+					t.Fatalf("VERIF-INCONCLUSIVE: workers did not get scheduled in time")
+				}
+				for i := 0; i < nested; i++ {
+					latch.Lock()
+				}
+				// the overlap
+				w.phase.Store(c45PhaseTransition)
+				var ready atomic.Int32
+				var gate atomic.Bool
+				var wg sync.WaitGroup
+				for k := pre; k < total; k++ {
+					wg.Add(1)
+					go func(fn func(context.Context)) {
+						defer wg.Done()
+						ready.Add(1)
+						for !gate.Load() {
+							runtime.Gosched()
+						}
+						s.compute(fn)
+					}(w.worker(k))
+				}
+				wg.Add(1)
+				go func() {
+					defer wg.Done()
+					ready.Add(1)
+					for !gate.Load() {
+						runtime.Gosched()
+					}
+					for i := 0; i < delay; i++ {
+						_ = gate.Load()
+					}
+					s.checkProtocols()
+				}()
+				for ready.Load() != int32(n+1) {
+					runtime.Gosched()
+				}
+				gate.Store(true)
+				wg.Wait()
+
+				// statistics: how many computes got their worker going before the stop
+				w.mu.Lock()
+				startedBefore := len(w.invs) - pre
+				w.mu.Unlock()
+				switch {
+				case startedBefore <= 0:
+					allAfter++
+				case startedBefore >= n:
+					allBefore++
+				default:
+					split++
+				}
+
+				stoppedChecks := func(what string) {
+					w.mu.Lock()
+					for _, inv := range w.invs {
+						if inv.ctx.Err() == nil {
+							w.mu.Unlock()
+							fail("%s: a protocol is executing but the context of worker %d is still live", what, inv.worker)
+						}
+					}
+					w.mu.Unlock()
+					w.phase.Store(c45PhaseStopped)
+					if issued() > 0 {
+						// hint only: the scheduler keeps a cancel function although it
+						// is stopped; give that loop the time to report itself
+						verifkit.Eventually(c45HintWait, func() bool { return liveNow() > 0 || w.getViolation() != "" })
+					}
+					c45Settle()
+					if v := w.getViolation(); v != "" {
+						fail("%s: %s", what, v)
+					}
+					if l := liveNow(); l > 0 {
+						fail("%s: %d worker iteration(s) run with a live context although the last scheduler check saw a protocol executing", what, l)
+					}
+				}
+				stoppedChecks("after compute() calls overlapping the check")
+				// later checks of the same protocol execution
+				w.phase.Store(c45PhaseTransition)
+				s.checkProtocols()
+				stoppedChecks("second check of the same execution")
+				for i := 1; i < nested; i++ {
+					latch.Unlock()
+				}
+				if nested > 1 {
+					w.phase.Store(c45PhaseTransition)
+					s.checkProtocols()
+					stoppedChecks("check with one of two nested executions finished")
+				}
+				// the protocol finishes: every worker (also those submitted
+				// during the overlap) runs exactly once
+				latch.Unlock()
+				w.phase.Store(c45PhaseTransition)
+				s.checkProtocols()
+				w.phase.Store(c45PhaseWorking)
+				if !verifkit.Eventually(c45WaitTimeout, func() bool {
+					live, _ := w.liveActive(total)
+					for _, l := range live {
+						if l < 1 {
+							return false
+						}
+					}
+					return true
+				}) {
+					s.workMutex.Lock()
+					state, iss := s.state, len(s.stops)
+					s.workMutex.Unlock()
+					if state != working || iss < total {
+						fail("no protocol is executing but generation did not resume for every worker (scheduler state=%d, %d live contexts for %d workers)", state, iss, total)
+					}
+					t.Fatalf("VERIF-INCONCLUSIVE: resumed workers did not get scheduled in time")
+				}
+				if issued() > total {
+					verifkit.Eventually(c45HintWait, func() bool {
+						live, _ := w.liveActive(total)
+						for _, l := range live {
+							if l > 1 {
+								return true
+							}
+						}
+						return false
+					})
+				}
+				c45Settle()
+				live, _ := w.liveActive(total)
+				for k, l := range live {
+					if l != 1 {
+						fail("after resume worker %d has %d loops running with a live context", k, l)
+					}
+				}
+			}()
+		}
+		st.Case(true, strings.Join(render, " "), fmt.Sprintf("rounds:%d", rounds),
+			fmt.Sprintf("rounds-with-computes-on-both-sides-of-the-stop:%d", min(split, 6)),
+			fmt.Sprintf("rounds-all-computes-before-stop:%d", min(allBefore, 6)),
+			fmt.Sprintf("rounds-all-computes-after-stop:%d", min(allAfter, 6)))
+	})
+}
+
+type c45Hit struct{}
+
+var c45MeasureHits = os.Getenv("VERIF_C45_HITRATE") != ""
+var c45Rounds, c45Hits atomic.Int64
+
+var c45Verb = regexp.MustCompile(`%[+#]?[a-zA-Z]`)
